@@ -91,6 +91,7 @@ type HarnessStats struct {
 	WallS        float64
 	AssertLabels map[string]int
 	Notes        []string
+	Races        []RaceReport
 }
 
 func newStats() *HarnessStats {
@@ -129,6 +130,8 @@ type PathState struct {
 	hashApps []hashApp
 	sigApps  []hashApp
 	hashFacts map[[2]int]bool
+	raceSeen  map[string]bool
+	atomicDepth int
 	ended    bool
 	killing      bool
 	pendingAbort interface{}
@@ -607,6 +610,9 @@ func (m *Machine) reach(label string) {
 // ---------------- explorer ----------------
 
 type Explorer struct {
+	shared    map[ssa.Instruction]bool
+	sharedNew bool
+	races     []RaceReport
 	mu        sync.Mutex
 	cond      *sync.Cond
 	queue     [][]Decision
@@ -625,6 +631,34 @@ func (e *Explorer) enqueue(m *Machine, prefix []Decision) {
 	e.queue = append(e.queue, prefix)
 	e.mu.Unlock()
 	e.cond.Signal()
+}
+
+func (e *Explorer) addSharedSite(s ssa.Instruction) bool {
+	e.mu.Lock()
+	defer e.mu.Unlock()
+	if e.shared[s] {
+		return false
+	}
+	e.shared[s] = true
+	e.sharedNew = true
+	return true
+}
+
+func (e *Explorer) isShared(s ssa.Instruction) bool {
+	e.mu.Lock()
+	defer e.mu.Unlock()
+	return e.shared[s]
+}
+
+func (e *Explorer) addRace(r RaceReport) {
+	e.mu.Lock()
+	defer e.mu.Unlock()
+	for _, x := range e.races {
+		if x.Site == r.Site && x.Kind == r.Kind {
+			return
+		}
+	}
+	e.races = append(e.races, r)
 }
 
 func (e *Explorer) wantWitness(label string) bool {
@@ -703,8 +737,22 @@ func lcp(a, b []Decision) int {
 
 // runHarness explores all paths of one harness with nworkers workers and returns merged stats.
 func runHarness(ld *Loaded, fn *ssa.Function, cfg *HarnessCfg, nworkers int, mirrors []string, timeoutMs int, budget time.Duration) *HarnessStats {
+	shared := map[ssa.Instruction]bool{}
+	var res *HarnessStats
+	for round := 0; round < 4; round++ {
+		var again bool
+		res, again = runHarnessOnce(ld, fn, cfg, nworkers, mirrors, timeoutMs, budget, shared)
+		if !again {
+			break
+		}
+		// shared-access sites were discovered: explore again with scheduling points at them
+	}
+	return res
+}
+
+func runHarnessOnce(ld *Loaded, fn *ssa.Function, cfg *HarnessCfg, nworkers int, mirrors []string, timeoutMs int, budget time.Duration, shared map[ssa.Instruction]bool) (*HarnessStats, bool) {
 	t0 := time.Now()
-	ex := &Explorer{witnesses: map[string]int{}, maxPaths: cfg.MaxPaths, wantW: cfg.Witnesses}
+	ex := &Explorer{witnesses: map[string]int{}, maxPaths: cfg.MaxPaths, wantW: cfg.Witnesses, shared: shared}
 	if budget > 0 {
 		ex.deadline = t0.Add(budget)
 	}
@@ -801,7 +849,8 @@ func runHarness(ld *Loaded, fn *ssa.Function, cfg *HarnessCfg, nworkers int, mir
 	res.Incomplete = ex.stop || len(ex.queue) > 0
 	ex.mu.Unlock()
 	res.WallS = time.Since(t0).Seconds()
-	return res
+	res.Races = ex.races
+	return res, ex.sharedNew && cfg.Sched > 0
 }
 
 func (m *Machine) runPath(fn *ssa.Function, prefix []Decision) {
